@@ -212,27 +212,107 @@ let dec_str (p : decision list) =
 let zsp_str (sp : z subproblem) =
   Printf.sprintf "(%s,%s,%s,%s,[%s])" (string_of_z sp.sp_state) (string_of_nat sp.sp_depth) (string_of_z sp.sp_value)
     (string_of_z sp.sp_ub) (dec_str sp.sp_path)
-let run_fringe_cmd lines =
+let parse_push c =
+  let st = next_z c in let depth = next_n c in let value = next_z c in let ub = next_z c in let tag = next_z c in
+  { sp_state = st; sp_value = value; sp_path = [ { d_var = O; d_val = tag } ]; sp_ub = ub; sp_depth = depth }
+
+(* generic runner over a fringe model given by (empty, push, pop, len) *)
+let run_fringe_generic empty push pop len lines =
   List.iter (fun l -> if starts_with "F " l then begin
     let c = mk_cur l in let kind = next_i c in
     if kind = 1 then begin
-      let f = ref (Some zf_empty) in
+      let f = ref (Some empty) in
       let res = Buffer.create 256 in
       while more c && !f <> None do
         let fr = match !f with Some x -> x | None -> assert false in
         (match next_i c with
-         | 1 -> let st = next_z c in let depth = next_n c in let value = next_z c in let ub = next_z c in let tag = next_z c in
-                let sp = { sp_state = st; sp_value = value; sp_path = [ { d_var = O; d_val = tag } ]; sp_ub = ub; sp_depth = depth } in
-                (match zf_push fr sp with None -> f := None | Some fr' -> f := Some fr'; Buffer.add_string res (string_of_nat (zf_len fr') ^ " "))
-         | 2 -> (match zf_pop fr with
+         | 1 -> let sp = parse_push c in
+                (match push fr sp with None -> f := None | Some fr' -> f := Some fr'; Buffer.add_string res (string_of_nat (len fr') ^ " "))
+         | 2 -> (match pop fr with
                  | None -> f := None
                  | Some (fr', r) -> f := Some fr';
-                    Buffer.add_string res (string_of_nat (zf_len fr') ^ ":" ^ (match r with None -> "-" | Some sp -> zsp_str sp) ^ " "))
-         | 3 -> f := Some zf_empty; Buffer.add_string res "0 "
+                    Buffer.add_string res (string_of_nat (len fr') ^ ":" ^ (match r with None -> "-" | Some sp -> zsp_str sp) ^ " "))
+         | 3 -> f := Some empty; Buffer.add_string res "0 "
          | _ -> failwith "bad fringe op")
       done;
       match !f with None -> print_endline "F CRASH" | Some _ -> print_endline ("F " ^ String.trim (Buffer.contents res))
     end else print_endline "F SKIP" end) lines
+
+let run_fringe_cmd lines = run_fringe_generic zf_empty zf_push zf_pop zf_len lines
+let run_fringe0_cmd lines = run_fringe_generic zf0_empty zf0_push zf0_pop (fun f -> Model.length f.nd_heap) lines
+
+(* the PROPERTY oracle for both fringes: replays the implementation's answers against the abstract priority queue
+   (a multiset of sub-problems; the duplicate-free variant coalesces entries with the same (state, depth));
+   every pop must return an element of the queue that is maximal for MaxUB, every length must be the queue's size.
+   usage: fringecheck <casefile> <impl output file> ; prints one OK / BAD line per case *)
+let same_sp (a : z subproblem) (b : z subproblem) =
+  Z.compare a.sp_state b.sp_state = Eq && Z.compare a.sp_value b.sp_value = Eq && Z.compare a.sp_ub b.sp_ub = Eq
+  && int_of_nat a.sp_depth = int_of_nat b.sp_depth
+  && (match a.sp_path, b.sp_path with [x], [y] -> Z.compare x.d_val y.d_val = Eq | _ -> false)
+let rec remove_first p = function [] -> None | x :: r -> if p x then Some r else (match remove_first p r with None -> None | Some r' -> Some (x :: r'))
+let parse_popped (tok : ostr) : (int * z subproblem option) option =
+  (* "<len>:-" or "<len>:(state,depth,value,ub,[0=tag])" *)
+  match String.index_opt tok ':' with
+  | None -> None
+  | Some i ->
+      let len = int_of_string (String.sub tok 0 i) in
+      let rest = String.sub tok (i + 1) (String.length tok - i - 1) in
+      if rest = "-" then Some (len, None)
+      else begin
+        let inner = String.sub rest 1 (String.length rest - 2) in
+        match String.split_on_char ',' inner with
+        | [st; d; v; ub; p] ->
+            let tag = String.sub p 3 (String.length p - 4) in
+            Some (len, Some { sp_state = z_of_string st; sp_depth = nat_of_int (int_of_string d); sp_value = z_of_string v;
+                              sp_ub = z_of_string ub; sp_path = [ { d_var = O; d_val = z_of_string tag } ] })
+        | _ -> None
+      end
+let run_fringecheck_cmd lines (implfile : ostr) =
+  let impl = Array.of_list (List.filter (fun l -> starts_with "F " l) (read_lines implfile)) in
+  let k = ref 0 in
+  List.iter (fun l -> if starts_with "F " l then begin
+    let c = mk_cur l in let kind = next_i c in
+    let out = impl.(!k) in incr k;
+    let toks = Array.of_list (List.tl (tokens out)) in
+    let q = ref [] in
+    let bad = ref None in
+    let t = ref 0 in
+    let fail i msg = if !bad = None then bad := Some (Printf.sprintf "op %d: %s" i msg) in
+    if out = "F CRASH" then print_endline "BAD fringe panics"
+    else begin
+      let opi = ref 0 in
+      (try
+        while more c do
+          let tok = if !t < Array.length toks then toks.(!t) else "" in
+          incr t;
+          (match next_i c with
+           | 1 -> let sp = parse_push c in
+                  (if kind = 1 then begin
+                     match remove_first (fun (y : z subproblem) -> Z.compare y.sp_state sp.sp_state = Eq && int_of_nat y.sp_depth = int_of_nat sp.sp_depth) !q with
+                     | Some rest ->
+                         let old = List.find (fun (y : z subproblem) -> Z.compare y.sp_state sp.sp_state = Eq && int_of_nat y.sp_depth = int_of_nat sp.sp_depth) !q in
+                         q := zq_coalesce old sp :: rest
+                     | None -> q := sp :: !q
+                   end else q := sp :: !q);
+                  if tok <> string_of_int (List.length !q) then fail !opi ("length " ^ tok ^ " after push, queue holds " ^ string_of_int (List.length !q))
+           | 2 -> (match parse_popped tok with
+                   | None -> fail !opi ("unparsable pop answer " ^ tok)
+                   | Some (len, None) -> if !q <> [] then fail !opi "pop returned nothing although the queue is not empty"
+                                         else if len <> 0 then fail !opi "length not 0 on empty queue"
+                   | Some (len, Some x) ->
+                       (match remove_first (same_sp x) !q with
+                        | None -> fail !opi ("popped " ^ zsp_str x ^ " which is not in the queue (lost / invented / wrongly coalesced)")
+                        | Some rest ->
+                            if List.exists (fun y -> z_maxub y x = Gt) !q then fail !opi ("popped " ^ zsp_str x ^ " is not maximal (ub, then value)");
+                            q := rest;
+                            if len <> List.length !q then fail !opi "length after pop differs from queue size"))
+           | 3 -> q := []; if tok <> "0" then fail !opi "length not 0 after clear"
+           | _ -> failwith "bad fringe op");
+          incr opi
+        done
+      with Not_found -> fail !opi "internal");
+      match !bad with None -> print_endline "OK" | Some m -> print_endline ("BAD " ^ m)
+    end end) lines
 
 (* ---------------------------------------------------------------- table instances *)
 let parse_inst (l : ostr) : tinst =
@@ -421,6 +501,8 @@ let () =
   | "dom" -> run_dom_cmd lines
   | "dompar" -> run_dom_par_cmd lines
   | "fringe" -> run_fringe_cmd lines
+  | "fringe0" -> run_fringe0_cmd lines
+  | "fringecheck" -> run_fringecheck_cmd lines Sys.argv.(3)
   | "mdd" -> run_mdd_cmd lines
   | "solve" -> run_solve_cmd lines
   | "oracle" -> run_oracle_cmd lines
